@@ -108,6 +108,13 @@ func planC09(tier string, root *simcore.RNG) *plan {
 		r := root.Fork()
 		sc := &Scenario{Prop: "C09", Family: "render", Seed: r.Uint64(), Sites: map[string]uint32{}}
 		sc.Env = Env{GOMAXPROCS: pick(r, []int{1, 2, 4, 16}), CPUs: pick(r, []int{1, 2, 4, 16, 16})}
+		// "on every run": the calendar day of the process's clock (one zone 14 h ahead of
+		// UTC, one 12 h behind: at any moment one of them is on another day than the
+		// canonical execution), and memory pressure from the rest of the program
+		sc.Env.TZ = pick(r, []string{"", "", "Pacific/Kiritimati", "Etc/GMT+12"})
+		if r.Intn(8) == 0 {
+			sc.GCStormMs = 2 + r.Intn(8)
+		}
 		id := 0
 		// history: 0..3 preceding renders, then a group of 1..3 concurrent jobs
 		pre := 0
@@ -643,7 +650,7 @@ func planC09(tier string, root *simcore.RNG) *plan {
 		pl.scenarios = append(pl.scenarios, sc)
 	}
 	pl.extra = map[string]any{"signatures": len(cat), "canonical_runs": len(cat), "setter_histories": len(pairs)}
-	pl.rule = "signatures (renderer x model x resolution x sink) drawn from uniform/octree marching cubes, uniform/quadtree marching squares, 2D and 3D dual contouring x 8 3D / 5 2D models x ToTriangles/ToSTL/To3MF/ToDXF/ToSVG. Each signature is rendered once canonically (fresh process, fifo, no optional yields, all CPUs); variant episodes (fresh processes) render 1..3 signatures concurrently after 0..3 preceding renders under a seeded schedule (uniform, pct, starve(one slice of the lattice | evaluations about to store | consumer | renderer | one job), burst, lifo) with evaluations parked before and after the real Evaluate, GOMAXPROCS in {1,2,4,16} and CPU affinity in {1,2,4,16} (= worker pool size). A third of the variant episodes, and a fixed set of histories that render both setter-reachable states of a model one after the other, keep renderer values and the model object in an episode-wide pool, as a program that holds them in variables does. Renders with many batches are repeated with a slow consumer (the writer goroutine sleeps 3..6 ms of real time at every k-th hook arrival) and with one evaluation that takes 2.5 s / 11 s of real time. Every third entry of the shape catalogue (all in the thorough tier; every exported constructor and blend option) is also built and rendered in a canonical and in 1..3 other fresh processes under other configurations. Oracle: every job's output digest (triangle sequence bits; STL/DXF/SVG bytes; decoded 3MF) equals the canonical digest of its signature. Non-trivial = a variant episode in which the scheduler had >= 2 choices at >= 1 step; distinct = trace hash."
+	pl.rule = "signatures (renderer x model x resolution x sink) drawn from uniform/octree marching cubes, uniform/quadtree marching squares, 2D and 3D dual contouring x 8 3D / 5 2D models x ToTriangles/ToSTL/To3MF/ToDXF/ToSVG. Each signature is rendered once canonically (fresh process, fifo, no optional yields, all CPUs); variant episodes (fresh processes) render 1..3 signatures concurrently after 0..3 preceding renders under a seeded schedule (uniform, pct, starve(one slice of the lattice | evaluations about to store | consumer | renderer | one job), burst, lifo) with evaluations parked before and after the real Evaluate, GOMAXPROCS in {1,2,4,16}, CPU affinity in {1,2,4,16} (= worker pool size), the process's time zone set so that its clock reads another calendar day, and (an eighth) a forced garbage collection every few milliseconds. A third of the variant episodes, and a fixed set of histories that render both setter-reachable states of a model one after the other, keep renderer values and the model object in an episode-wide pool, as a program that holds them in variables does. Renders with many batches are repeated with a slow consumer (the writer goroutine sleeps 3..6 ms of real time at every k-th hook arrival) and with one evaluation that takes 2.5 s / 11 s of real time. Every third entry of the shape catalogue (all in the thorough tier; every exported constructor and blend option) is also built and rendered in a canonical and in 1..3 other fresh processes under other configurations. Oracle: every job's output digest (triangle sequence bits; STL/DXF/SVG bytes; decoded 3MF) equals the canonical digest of its signature. Non-trivial = a variant episode in which the scheduler had >= 2 choices at >= 1 step; distinct = trace hash."
 	pl.nontriv = func(o *runOut) (bool, string) {
 		if o.res == nil || o.sc.Note == "canonical" {
 			return false, ""
